@@ -166,6 +166,19 @@ class Parser:
             self.expect(">")
             self.expect("::")
             return N("tpath", segs=[("<qself>", [q]), (self.ident(), [])])
+        if self.at("fn") and self.at("(", 1):
+            self.next()
+            self.next()
+            params = []
+            while not self.at(")"):
+                params.append(self.type_())
+                if not self.accept(","):
+                    break
+            self.expect(")")
+            ret = None
+            if self.accept("->"):
+                ret = self.type_()
+            return N("tfn", params=params, ret=ret)
         if self.peek().kind != "id" or self.peek().text in ("impl", "dyn", "fn", "for", "mut", "const"):
             self.fail("expected a (path / reference / slice / tuple) type")
         segs = []
@@ -281,8 +294,10 @@ class Parser:
                 self.next()
                 rhs = self.assign(ns)
                 return N("assign", op=op, lhs=lhs, rhs=rhs)
-        if self.at("..") or self.at("..="):
-            self.fail("range expression")
+        if (self.at("..") or self.at("..=")) and self.peek().kind == "p":
+            incl = self.next().text == "..="
+            rhs = self.binary(0, ns)
+            return N("range", lo=lhs, hi=rhs, inclusive=incl)
         return lhs
 
     def binary(self, level, ns):
@@ -490,6 +505,9 @@ class Parser:
             return N("tuple", items=items)
         if t.kind == "p" and t.text == "{":
             return self.block()
+        if t.kind == "id" and t.text == "move" and self.peek(1).kind == "p" and self.peek(1).text in ("|", "||"):
+            self.next()       # `move`: captures by value; values are immutable in the Model, so no difference
+            t = self.peek()
         if t.kind == "p" and t.text in ("|", "||"):
             self.next()
             params = []
@@ -512,7 +530,11 @@ class Parser:
             self.expect(">")
             self.expect("::")
             head = type_head(q)
-            return N("path", segs=[head, self.ident()])
+            segs = [head, self.ident()]
+            while self.at("::") and self.peek(1).kind == "id":
+                self.next()
+                segs.append(self.ident())
+            return N("path", segs=segs)
         if t.kind != "id":
             self.fail("unsupported expression")
         if t.text in ("true", "false"):
@@ -526,6 +548,20 @@ class Parser:
             self.expect("{")
             arms = []
             while not self.at("}"):
+                cfg = None
+                while self.at("#"):
+                    # only `#[cfg(feature = "…")]` on an arm is understood: the arm exists only with that cargo feature
+                    a0 = self.i
+                    self.next()
+                    close = T.match_close(self.t, self.i)
+                    txt = T.text_of(self.t[self.i + 1:close])
+                    self.i = close + 1
+                    import re as _re
+                    m = _re.fullmatch(r'cfg \( feature = "(\w+)" \)', txt)
+                    if not m:
+                        self.i = a0
+                        self.fail("attribute on a match arm: " + txt)
+                    cfg = m.group(1)
                 self.accept("|")
                 pat = self.pattern()
                 guard = None
@@ -541,7 +577,7 @@ class Parser:
                     body = self.expr()
                     if not self.at("}"):
                         self.expect(",")
-                arms.append(N("arm", pat=pat, guard=guard, body=body))
+                arms.append(N("arm", pat=pat, guard=guard, body=body, cfg=cfg))
             self.expect("}")
             return N("match", scrut=scrut, arms=arms)
         if t.text == "for":
@@ -556,7 +592,10 @@ class Parser:
             if self.at(";") or self.at("}") or self.at(","):
                 return N("return", e=None)
             return N("return", e=self.expr())
-        if t.text in ("while", "loop", "break", "continue", "unsafe", "move", "async", "await"):
+        if t.text == "loop":
+            self.next()
+            return N("loop", body=self.block())
+        if t.text in ("while", "break", "continue", "unsafe", "move", "async", "await"):
             self.fail(f"`{t.text}` expression")
         # path, macro call, struct literal
         segs = [self.ident()]
@@ -599,6 +638,8 @@ class Parser:
 
 # =============================================================================== items
 
+ASSOC_DECL = {}   # (file, impl type, name) -> type AST of `type name = …;` in an impl block
+MACROS = {}    # file -> {macro name: [(pattern tokens, body tokens)]}
 CONSTS = {}    # file -> {const name: initialiser tokens}
 STRUCTS = {}   # file -> {struct name: [field names]}
 
@@ -714,6 +755,19 @@ def parse_items(file):
                 f = fn_at(p, impl_type, impl_trait, trait_args)
                 if f:
                     fns.append(f)
+            elif p.at("type") and p.peek(1).kind == "id" and p.at("=", 2):
+                # `type Item = T;` of a trait impl
+                p.next()
+                nm = p.ident()
+                p.next()
+                save = p.where
+                try:
+                    ASSOC_DECL[(file, impl_type, nm)] = p.type_()
+                except Untranslatable:
+                    pass
+                p.where = save
+                while not p.at(";"):
+                    p.next()
             else:
                 t = p.next()
                 if t.kind == "p" and t.text in T.OPEN:
@@ -841,9 +895,26 @@ def parse_items(file):
                 fns.append(f)
         elif p.at("macro_rules"):
             p.next()
+            p.expect("!")
+            name = p.ident()
+            end = T.match_close(p.t, p.i)
             p.next()
-            p.next()
-            p.i = T.match_close(p.t, p.i) + 1
+            arms = []
+            while p.i < end:
+                if p.accept(";"):
+                    continue
+                if not (p.peek().kind == "p" and p.peek().text in T.OPEN):
+                    break
+                pc = T.match_close(p.t, p.i)
+                pat = p.t[p.i + 1:pc]
+                p.i = pc + 1
+                p.expect("=>")
+                bc = T.match_close(p.t, p.i)
+                body = p.t[p.i + 1:bc]
+                p.i = bc + 1
+                arms.append((pat, body))
+            MACROS.setdefault(file, {})[name] = arms
+            p.i = end + 1
         else:
             t = p.next()
             if t.kind == "p" and t.text in T.OPEN:
@@ -945,12 +1016,16 @@ def render(n, ind, paren=False):
             lines.append(sp + "  | " + " | ".join(pats) + " => " + render(body, ind + 4, False))
         return "(" + "\n".join(lines) + ")"
     if isinstance(n, If):
-        return ("(if " + render(n.c, ind + 2) + " then\n" + sp + "    " + render(n.t, ind + 4) + "\n" + sp + "  else\n" +
-                sp + "    " + render(n.e, ind + 4) + ")")
+        out = "(if " + render(n.c, ind + 2) + " then\n" + sp + "    " + render(n.t, ind + 4)
+        e = n.e
+        while isinstance(e, If):          # `else if` chains stay flat
+            out += "\n" + sp + "  else if " + render(e.c, ind + 2) + " then\n" + sp + "    " + render(e.t, ind + 4)
+            e = e.e
+        return out + "\n" + sp + "  else\n" + sp + "    " + render(e, ind + 4) + ")"
     if isinstance(n, Seq):
         lines = []
         for kind, pat, v in n.stmts:
-            arrow = "←" if kind == "bind" else ":="
+            arrow = "←" if kind == "bind" else ":="      # kinds `let` and `mut` are both plain `let`
             lines.append(sp + "  let " + pat + " " + arrow + " " + render(v, ind + 2, False))
         lines.append(sp + "  " + render(n.final, ind + 2, False))
         if n.eff:
@@ -962,13 +1037,22 @@ def render(n, ind, paren=False):
 TEMP = "τ"
 
 
+def hoistable(st):
+    """a statement that may be moved into the enclosing sequence: binds a temporary, or is the rebinding made by a
+    mutation rule (kind `mut`), which is meant to be visible afterwards"""
+    kind, p, _ = st
+    return kind == "mut" or p.startswith(TEMP) or p.startswith("_")
+
+
 def bind_stmts(pat, node):
     """statements that bind the value of `node` (monadic or plain) to `pat`"""
     if not node.eff:
+        if isinstance(node, Seq) and all(hoistable(st) for st in node.stmts):
+            return node.stmts + [("let", pat, node.final)]
         return [("let", pat, node)]
     if isinstance(node, PureM):
         return [("let", pat, node.term)]
-    if isinstance(node, Seq) and all(p.startswith(TEMP) or p.startswith("_") for _, p, _ in node.stmts):
+    if isinstance(node, Seq) and all(hoistable(st) for st in node.stmts):
         return node.stmts + bind_stmts(pat, node.final)
     return [("bind", pat, node)]
 
@@ -995,7 +1079,9 @@ TYPE_MAP = {
     "Value": "Value", "ValueType": "ValueType", "Operator": "Operator", "Node": "Node", "EvalexprError": "Err",
     "TupleType": "(List Value)", "EmptyType": "Unit", "Int": "Int64", "Float": "Float",
     "HashMapContext": "HashMapCtx", "EmptyContext": "Unit", "EmptyContextWithBuiltinFunctions": "Unit",
-    "Function": "UserFn",
+    "Function": "UserFn", "RangeInclusive": "Rs.RangeInclusive",
+    # the explicit stack of slice iterators of tree/iter.rs: a Vec (top = last) of the remaining children
+    "NodeIter": "Rs.IterStack", "OperatorIterMut": "Rs.IterStack",
     # `Self` of the default methods of these traits: any context
     "ContextWithMutableVariables": "Ctx", "ContextWithMutableFunctions": "Ctx",
 }
@@ -1052,6 +1138,9 @@ def build_enum_map():
         ("IntFromUsize", ["usize_int"]), ("IntIntoUsize", ["int"]),
     ]:
         err[v] = ("Err." + camel(v), "struct", fields)
+    # variants whose Rust field is a RangeInclusive, spread over two constructor arguments by a Prelude function
+    err["WrongFunctionArgumentAmount"] = ("Rs.Err_wrongFunctionArgumentAmount", "struct", ["expected", "actual"])
+    err["ExpectedRangedLengthTuple"] = ("Rs.Err_expectedRangedLengthTuple", "struct", ["expected_length", "actual"])
     for v in ["VariableIdentifierNotFound", "FunctionIdentifierNotFound", "IllegalEscapeSequence", "CustomMessage"]:
         err[v] = ("Err." + camel(v), "tuple", [None])
     for v in ["AppendedToLeafNode", "PrecedenceViolation", "UnmatchedLBrace", "UnmatchedRBrace", "UnmatchedDoubleQuote",
@@ -1067,12 +1156,15 @@ ENUM_FILES = {"Value": "value/mod.rs", "ValueType": "value/value_type.rs", "Oper
               "EvalexprError": "error/mod.rs"}
 # struct fields: (Rust struct, field) -> Lean projection
 FIELD_MAP = {("Node", "operator"): "Evalexpr.Node.op", ("Node", "children"): "Evalexpr.Node.children",
+             ("NodeIter", "stack"): "Rs.IterStack.stack", ("OperatorIterMut", "stack"): "Rs.IterStack.stack",
              ("HashMapContext", "variables"): "Evalexpr.HashMapCtx.vars", ("HashMapContext", "functions"): "Evalexpr.HashMapCtx.funs",
              ("HashMapContext", "without_builtin_functions"): "Evalexpr.HashMapCtx.noBuiltins"}
 
 # structs built by a struct literal: Rust struct -> (Lean constructor, Rust field names in constructor order)
-STRUCT_MAP = {"HashMapContext": ("HashMapCtx.mk", ["variables", "functions", "without_builtin_functions"])}
-FIELD_UPDATE = {("HashMapContext", "variables"): "vars", ("HashMapContext", "functions"): "funs",
+STRUCT_MAP = {"HashMapContext": ("HashMapCtx.mk", ["variables", "functions", "without_builtin_functions"]),
+              "NodeIter": ("Rs.IterStack.mk", ["stack"]), "OperatorIterMut": ("Rs.IterStack.mk", ["stack"])}
+FIELD_UPDATE = {("NodeIter", "stack"): "stack", ("OperatorIterMut", "stack"): "stack",
+                ("HashMapContext", "variables"): "vars", ("HashMapContext", "functions"): "funs",
                 ("HashMapContext", "without_builtin_functions"): "noBuiltins"}
 
 # ---- BOUNDARY: calls that leave the translated code, mapped to Model definitions (trusted)
@@ -1095,6 +1187,7 @@ PRIM_METHODS = {
     ("i64", "checked_mul", 1): "Rs.i64_checked_mul", ("i64", "checked_div", 1): "Rs.i64_checked_div",
     ("i64", "checked_rem", 1): "Rs.i64_checked_rem", ("i64", "checked_neg", 0): "Rs.i64_checked_neg",
     ("i64", "checked_abs", 0): "Rs.i64_checked_abs",
+    ("i64", "wrapping_shl", 1): "Rs.i64_wrapping_shl", ("i64", "wrapping_shr", 1): "Rs.i64_wrapping_shr",
     ("f64", "powf", 1): "Float.pow", ("f64", "ln", 0): "Float.log", ("f64", "log", 1): "Evalexpr.F64.logBase",
     ("f64", "log2", 0): "Float.log2", ("f64", "log10", 0): "Float.log10", ("f64", "exp", 0): "Float.exp",
     ("f64", "exp2", 0): "Float.exp2", ("f64", "cos", 0): "Float.cos", ("f64", "cosh", 0): "Float.cosh",
@@ -1108,10 +1201,12 @@ PRIM_METHODS = {
     ("f64", "is_normal", 0): "Evalexpr.F64.isNormal", ("f64", "abs", 0): "Float.abs", ("f64", "min", 1): "Evalexpr.F64.fmin",
     ("f64", "max", 1): "Evalexpr.F64.fmax",
 }
-TRANSLATED_TRAITS = ("EvalexprInt", "EvalexprFloat", "EvalexprNumericTypes", "IterateVariablesContext")
+# method names that exist both as a std method (e.g. `Ord::min` on the int type) and as a method of the numeric traits
+# (`EvalexprFloat::min`): rendered as a Prelude class method; the translated trait impl registers the instance of its type
+CLASS_TRAIT_METHODS = {("min", 1): ("Rs.min", "Rs.Min"), ("max", 1): ("Rs.max", "Rs.Max")}
+TRANSLATED_TRAITS = ("Iterator", "EvalexprInt", "EvalexprFloat", "EvalexprNumericTypes", "IterateVariablesContext")
 # free functions / associated functions, by path suffix
 BOUNDARY_PATHS = {
-    ("builtin_function",): (1, "Evalexpr.builtinFunction"),
     ("token", "tokenize"): (1, "Evalexpr.tokenize"),
     ("tree", "tokens_to_operator_tree"): (1, "Evalexpr.tokensToOperatorTree"),
 }
@@ -1125,12 +1220,14 @@ BOUNDARY_NOTES = [
 
 # ---- std vocabulary rendered by the Prelude: method (name, nargs) -> (Lean function, effect)
 STD_METHODS = {
-    ("clone", 0): ("Rs.clone", None), ("cloned", 0): ("Rs.cloned", None), ("to_string", 0): ("Rs.clone", None),
+    ("clone", 0): ("Rs.clone", None), ("cloned", 0): ("Rs.cloned", None), ("to_string", 0): ("Rs.to_string", None),
     ("to_owned", 0): ("Rs.clone", None), ("into", 0): ("Rs.into", None),
     ("len", 0): ("Rs.len", None), ("is_empty", 0): ("Rs.is_empty", None), ("first", 0): ("Rs.first", None),
     ("last", 0): ("Rs.last", None), ("get", 1): ("Rs.get", None), ("unwrap_or", 1): ("Rs.unwrap_or", None),
     ("map", 1): ("Rs.map", None), ("unwrap", 0): ("Rs.unwrap", "panic"),
-    ("iter", 0): ("Rs.iter", None), ("keys", 0): ("Rs.keys", None),
+    ("iter", 0): ("Rs.iter", None), ("iter_mut", 0): ("Rs.iter", None), ("into_iter", 0): ("Rs.iter", None), ("keys", 0): ("Rs.keys", None),
+    ("to_lowercase", 0): ("Rs.to_lowercase", None), ("to_uppercase", 0): ("Rs.to_uppercase", None), ("trim", 0): ("Rs.trim", None),
+    ("contains", 1): ("Rs.contains", None), ("ok_or", 1): ("Rs.ok_or", None), ("as_str", 0): ("Rs.clone", None),
     ("map_err", 1): ("Rs.map_err", None), ("ok_or_else", 1): ("Rs.ok_or_else", None), ("try_into", 0): ("Rs.try_into", None),
 }
 STD_MUTATORS = {("push_str", 1): "Rs.push_str", ("push", 1): "Rs.push", ("clear", 0): "Rs.clear", ("insert", 2): "Rs.insert"}
@@ -1145,12 +1242,13 @@ BINOPS = {"==": "Rs.eq", "!=": "Rs.ne", "<": "Rs.lt", "<=": "Rs.le", ">": "Rs.gt
 
 # source file -> generated module (in dependency order)
 MODULES = [("value/value_type.rs", "FnValueType"), ("error/mod.rs", "FnError"), ("value/mod.rs", "FnValue"),
-           ("value/numeric_types/default_numeric_types.rs", "FnNumeric"), ("context/mod.rs", "FnContext"),
-           ("operator/mod.rs", "FnOperator"), ("tree/mod.rs", "FnTree"), ("interface/mod.rs", "FnInterface")]
+           ("value/numeric_types/default_numeric_types.rs", "FnNumeric"), ("function/builtin.rs", "FnBuiltin"),
+           ("context/mod.rs", "FnContext"),
+           ("operator/mod.rs", "FnOperator"), ("tree/mod.rs", "FnTree"), ("tree/iter.rs", "FnIter"), ("interface/mod.rs", "FnInterface")]
 # finer than per file where the call graph needs it: `impl EvalexprNumericTypes for DefaultNumericTypes` (the casts) is used by
 # value/mod.rs, whose `Value::from_int` is used by the `impl EvalexprInt for i64` of the same file
 MODULE_OVERRIDES = {("value/numeric_types/default_numeric_types.rs", "DefaultNumericTypes"): "FnNumericTypes"}
-MODULE_ORDER = ["FnValueType", "FnNumericTypes", "FnError", "FnValue", "FnNumeric", "FnContext", "FnOperator", "FnTree", "FnInterface"]
+MODULE_ORDER = ["FnValueType", "FnNumericTypes", "FnError", "FnValue", "FnNumeric", "FnBuiltin", "FnContext", "FnOperator", "FnTree", "FnIter", "FnInterface"]
 
 
 # =============================================================================== the translator
@@ -1178,6 +1276,7 @@ class World:
         self.gen = {}             # id(item) -> GenFn
         self.order = []           # GenFn in emission order
         self.stack = []
+        self.skipped_arms = []    # (function, cargo feature, pattern) of match arms under #[cfg(feature = …)]
         files = ["error/mod.rs", "value/mod.rs", "value/value_type.rs", "operator/mod.rs", "tree/mod.rs", "context/mod.rs",
                  "function/mod.rs", "function/builtin.rs", "value/numeric_types/default_numeric_types.rs",
                  "token/mod.rs", "interface/mod.rs", "tree/iter.rs"]
@@ -1270,6 +1369,10 @@ class FnTr:
         self.div = []             # per open block: does it end with `return`?
         self.entry_refs = {}      # local name -> (field of self, key term): `&mut` into a map entry obtained by get_mut
         self.dead_refs = set()
+        self.in_closure = False
+        self.rank = 0
+        self.order_of = {}        # local name -> declaration rank (the loop / branch state tuple is in declaration order)
+        self.loop_depth = 0
         self.attach = False       # loops run over `List.attach` (membership proofs for the termination of a recursive fn)
         self.nloops = 0
 
@@ -1301,6 +1404,9 @@ class FnTr:
         if ty.kind == "tslice":
             s = "List " + self.ltype(ty.inner, True)
             return "(" + s + ")" if paren else s
+        if ty.kind == "tfn":
+            s_ = " → ".join([self.ltype(x, True) for x in ty.params] + [self.ltype(ty.ret, True)])
+            return "(" + s_ + ")"
         if ty.kind == "ttuple":
             if not ty.items:
                 return "Unit"
@@ -1314,6 +1420,8 @@ class FnTr:
             self.fail("qualified type <… as …>::" + name)
         if len(segs) == 2 and segs[0][0] in ("NumericTypes", "Self", "C") and name in ("Int", "Float"):
             return TYPE_MAP[name]
+        if len(segs) == 2 and segs[0][0] == "Self" and (self.item.file, self.item.impl_type, name) in ASSOC_DECL:
+            return self.ltype(ASSOC_DECL[(self.item.file, self.item.impl_type, name)], paren)
         if len(segs) == 2 and segs[0][0] == "Self" and name in ASSOC_TYPE_MAP:
             s_ = ASSOC_TYPE_MAP[name]
             return "(" + s_ + ")" if paren else s_
@@ -1372,6 +1480,19 @@ class FnTr:
         g.ret = self.ltype(it.ret, False)
         g.ret_is_res = g.ret.startswith("Res ")
         g.mut_self = it.self_kind == "&mut"
+        g.has_loop = any(t.kind == "id" and t.text == "loop" for t in it.body_toks)
+        if g.has_loop:
+            # a function with a `loop`: fuel-indexed; `Res`: `.error (.panic …)` when the fuel runs out (or on a panic)
+            if g.is_ctx:
+                self.fail("`loop` in a function with a context parameter")
+            params.insert(0, ("fuel", "Nat"))
+            inner = self.ltype(it.ret, True)
+            if g.mut_self:
+                inner = f"({inner} × {TYPE_MAP[it.impl_type]})"
+            g.ret = "Res " + inner
+            g.ret_is_res = True
+            g.params = params
+            return
         if g.mut_self:
             if g.is_ctx:
                 self.fail("`&mut self` method with a context parameter")
@@ -1382,12 +1503,19 @@ class FnTr:
     # ---- scopes
     def push(self, names=()):
         self.frames.append(set(names))
+        for n in names:
+            if n not in self.order_of:
+                self.rank += 1
+                self.order_of[n] = self.rank
 
     def pop(self):
         self.frames.pop()
 
     def declare(self, name):
+        self.dead_refs.discard(name)      # a new variable of that name
         self.frames[-1].add(name)
+        self.rank += 1
+        self.order_of[name] = self.rank
 
     def is_local(self, name):
         return any(name in f for f in self.frames)
@@ -1503,10 +1631,13 @@ class FnTr:
         """translate `e`; if it has effects, bind it to a temporary in `stmts` and return the temporary"""
         n = self.expr(e)
         if not n.eff:
+            if isinstance(n, Seq) and any(st[0] == "mut" for st in n.stmts) and all(hoistable(st) for st in n.stmts):
+                stmts.extend(n.stmts)       # the rebindings of a mutating expression stay visible
+                return n.final
             return n
         if isinstance(n, PureM):
             return n.term
-        if isinstance(n, Seq) and isinstance(n.final, PureM) and all(p.startswith(TEMP) or p.startswith("_") for _, p, _ in n.stmts):
+        if isinstance(n, Seq) and isinstance(n.final, PureM) and all(hoistable(st) for st in n.stmts):
             # the effects are hoisted, the (used-once) value term stays in place
             stmts.extend(n.stmts)
             return n.final.term
@@ -1526,6 +1657,8 @@ class FnTr:
     def is_ctx_expr(self, e):
         while e.kind in ("ref", "paren"):
             e = e.e
+        if self.in_closure and self.g.is_ctx and e.kind == "path" and e.segs == [self.g.ctx_param]:
+            self.fail("the context parameter captured by a closure")
         return self.g.is_ctx and e.kind == "path" and e.segs == [self.g.ctx_param] and not self.is_shadowed_ctx()
 
     def is_shadowed_ctx(self):
@@ -1584,6 +1717,10 @@ class FnTr:
             self.fail("binary operator " + e.op)
         return self.with_args([e.l, e.r], lambda a: App(BINOPS[e.op], a))
 
+    def e_range(self, e):
+        head = "Rs.RangeInclusive.mk" if e.inclusive else "Rs.Range.mk"
+        return self.with_args([e.lo, e.hi], lambda a: App(head, a))
+
     def e_cast(self, e):
         # `x as T`: the numeric conversion fixed by the two types (Prelude class `Rs.Cast`)
         ty = self.ltype(e.ty, False)
@@ -1597,6 +1734,9 @@ class FnTr:
 
     def e_return(self, e):
         wrap = (lambda a: Tup([a, Atom("self")])) if self.g.mut_self else (lambda a: a)
+        if getattr(self.g, "has_loop", False) and not self.in_closure:
+            inner = wrap
+            wrap = lambda a: App("Except.ok", [inner(a)])
         if e.e is None:
             return App("Rs.ret", [wrap(Tup([]))], eff=True)
         return self.with_args([e.e], lambda a: App("Rs.ret", [wrap(a[0])], eff=True))
@@ -1631,7 +1771,54 @@ class FnTr:
             arms = [N("arm", pat=pat, guard=None, body=N("lit", lk="bool", text="true")),
                     N("arm", pat=N("pwild"), guard=None, body=N("lit", lk="bool", text="false"))]
             return self.e_match(N("match", scrut=scrut, arms=arms))
+        macros = MACROS.get(self.item.file, {})
+        if e.name in macros:
+            return self.expr(self.expand_macro(e.name, macros[e.name], e.toks))
         self.fail("macro " + e.name + "!")
+
+    def expand_macro(self, name, arms, toks):
+        """`macro_rules!` expansion: first arm whose pattern (literal tokens and `$x:ident` metavariables) matches"""
+        for pat, body in arms:
+            binds, i, j, ok = {}, 0, 0, True
+            while i < len(pat):
+                if pat[i].kind == "p" and pat[i].text == "$":
+                    if not (i + 3 < len(pat) + 1 and pat[i + 2].text == ":" ):
+                        self.fail(f"macro {name}!: malformed metavariable")
+                    kind = pat[i + 3].text
+                    if kind != "ident":
+                        self.fail(f"macro {name}!: metavariable kind `{kind}` (only `ident` is supported)")
+                    if j >= len(toks) or toks[j].kind != "id":
+                        ok = False
+                        break
+                    binds[pat[i + 1].text] = toks[j]
+                    i, j = i + 4, j + 1
+                elif pat[i].kind == "p" and pat[i].text in ("(", "[", "{", ")", "]", "}"):
+                    self.fail(f"macro {name}!: nested delimiters / repetitions in a pattern")
+                else:
+                    if j >= len(toks) or (toks[j].kind, toks[j].text) != (pat[i].kind, pat[i].text):
+                        ok = False
+                        break
+                    i, j = i + 1, j + 1
+            if not ok or j != len(toks):
+                continue
+            out, k = [], 0
+            while k < len(body):
+                t = body[k]
+                if t.kind == "p" and t.text == "$":
+                    nm = body[k + 1].text
+                    if nm not in binds:
+                        self.fail(f"macro {name}!: `${nm}` is not bound by the pattern (repetitions are not supported)")
+                    out.append(binds[nm])
+                    k += 2
+                else:
+                    out.append(t)
+                    k += 1
+            p = Parser(out, self.item.where + "::" + name + "!")
+            x = p.expr()
+            if not p.eof():
+                p.fail("trailing tokens in the expansion of " + name + "!")
+            return x
+        self.fail(f"macro {name}!({T.text_of(toks)}) matches no arm")
 
     def e_closure(self, e):
         names, extra = [], []
@@ -1654,6 +1841,28 @@ class FnTr:
         if body.eff:
             self.fail("closure with `?` / `return` / panic / context access in its body")
         return Lam(names if names else ["(_ : Unit)"], body)
+
+    def result_closure(self, c):
+        """a closure that returns a `Result` (the argument of `Function::new`): translated like a function body —
+        `?` and `return` inside it belong to the closure"""
+        p = c.params[0]
+        if p.kind == "ppath" and len(p.segs) == 1:
+            name = p.segs[0]
+        elif p.kind == "pident":
+            name = p.name
+        else:
+            self.fail("closure parameter pattern")
+        saved = (self.g.ret_is_res, self.g.mut_self, self.div, self.in_closure, set(self.dead_refs))
+        self.g.ret_is_res, self.g.mut_self, self.div, self.in_closure = True, False, [], True
+        self.push([name])
+        body = self.expr(c.body)
+        self.pop()
+        self.g.ret_is_res, self.g.mut_self, self.div, self.in_closure, self.dead_refs = saved
+        if body.ctx:
+            self.fail("context access inside a closure")
+        if body.eff:
+            body = App("Rs.Flow.run", [body])
+        return Lam([lname(name)], body)
 
     def e_structlit(self, e):
         v = self.variant(e.segs)
@@ -1692,7 +1901,7 @@ class FnTr:
                 if self.g.is_ctx and name == self.g.ctx_param and not self.is_shadowed_ctx():
                     self.fail("the context parameter used as a value")
                 if name in self.dead_refs:
-                    self.fail(f"`{name}` (a reference into a map entry) is used after the entry was assigned through it")
+                    self.fail(f"`{name}` is used after it was consumed (assignment through a map-entry reference / swap_remove)")
                 return Atom(lname(name))
             if name == "None":
                 return Atom("none")
@@ -1719,6 +1928,10 @@ class FnTr:
                 if n.eff:
                     self.fail("const initialiser with effects")
                 return n
+        if segs == ["usize", "MAX"]:
+            return Atom("Rs.usize_MAX")
+        if len(segs) == 2 and segs[1] == "from" and segs[0] in TYPE_MAP:
+            return Atom("(fun x => (Rs.into x : " + TYPE_MAP[segs[0]] + "))")
         f = self.resolve_path_fn(segs, None)
         if f is None:
             self.fail("unresolved path " + "::".join(segs))
@@ -1729,6 +1942,15 @@ class FnTr:
 
     def resolve_path_fn(self, segs, nargs):
         """('std'|'boundary'|'gen', lean name, GenFn|None) for a function path"""
+        if len(segs) >= 3 and segs[-3] in ("NumericTypes", "DefaultNumericTypes") and segs[-2] in ("Float", "Int"):
+            # an item of the associated numeric type: the `impl … for f64 / i64` of the default numeric types
+            owner = "f64" if segs[-2] == "Float" else "i64"
+            cands = [it for it in self.w.items if it.impl_type == owner and it.name == segs[-1] and it.impl_trait in TRANSLATED_TRAITS]
+            if len(cands) != 1:
+                self.fail(f"{owner}::{segs[-1]}: {len(cands)} candidates")
+            g = self.w.require(cands[0])
+            self.g.deps.append(g)
+            return "gen", g.lean_name, g
         key = tuple(segs[-2:]) if len(segs) >= 2 else tuple(segs)
         if key in STD_PATHS and (nargs is None or STD_PATHS[key][0] == nargs):
             return "std", STD_PATHS[key][1], None
@@ -1761,7 +1983,11 @@ class FnTr:
 
     def call_gen(self, g, recv, args):
         """call of a translated function; `args` are the Rust argument expressions (without self)"""
+        if getattr(g, "has_loop", False):
+            self.fail(f"call of {g.lean_name}, a fuel-indexed function (contains a `loop`)")
         exprs = list(args)
+        if recv is None and g.item.self_kind is not None and len(exprs) == len(g.item.params) + 1:
+            recv, exprs = exprs[0], exprs[1:]      # `Type::method(receiver, …)`
         if len(exprs) != len(g.item.params):
             self.fail(f"arity of the call to {g.lean_name}")
         fresh = None
@@ -1796,7 +2022,13 @@ class FnTr:
             head = {"Ok": "Except.ok", "Err": "Except.error", "Some": "some"}[segs[0]]
             return self.with_args(e.args, lambda a: App(head, a))
         if len(segs) == 1 and self.is_local(segs[0]):
-            self.fail("call of a local function value")
+            # a local variable of function type (`fn(..) -> ..` parameter): application
+            return self.with_args(e.args, lambda a: App(lname(segs[0]), a))
+        if segs[-2:] == ["Function", "new"] and n == 1:
+            c = e.args[0]
+            if c.kind != "closure" or len(c.params) != 1:
+                self.fail("Function::new of something that is not a one-parameter closure")
+            return App("Rs.Function_new", [self.result_closure(c)])
         v = self.variant(segs)
         if v:
             lean, kind, fields = ENUM_MAP[v[0]][v[1]]
@@ -1830,6 +2062,7 @@ class FnTr:
         if (name, n) in STD_MUTATORS:
             self.fail(f"`{name}` (a mutation) in expression position")
         prim = self.item.impl_type if self.item.impl_type in ("i64", "f64") else None
+        on_value = False
         if prim:
             r = e.recv
             while r.kind == "paren":
@@ -1844,6 +2077,39 @@ class FnTr:
                     self.fail(f"std method `{prim}::{name}`/{n} is not in the table of primitive methods")
                 return self.with_args([e.recv] + e.args, lambda a: App(PRIM_METHODS[(prim, name, n)], a))
         crate = [it for it in self.w.items if it.name == name and it.self_kind is not None and len(it.params) == n]
+        if (name, n) == ("next", 0) and e.recv.kind == "path" and len(e.recv.segs) == 1 and e.recv.segs[0] in self.entry_refs:
+            # `r.next()` with `r` the `&mut` to a slice iterator stored in `self`: the first remaining item; the stored
+            # iterator (and `r`) become the rest
+            self.check_self_mut()
+            r = e.recv.segs[0]
+            fld, key = self.entry_refs[r]
+            t = self.temp()
+            st = [("let", t, App("Rs.iter_next", [Atom(lname(r))])),
+                  ("mut", "self", self.set_entry(fld, key, Atom(t + ".2"))),
+                  ("mut", lname(r), Atom(t + ".2"))]
+            return Seq(st, Atom(t + ".1"), False, False)
+        if (name, n) == ("pop", 0) and self.g.mut_self and self.self_field(e.recv):
+            # `self.<vec>.pop()`: the last element (if any); the field loses it
+            self.check_self_mut()
+            fld = self.self_field(e.recv)
+            owner = self.item.impl_type
+            cur = App(FIELD_MAP[(owner, fld)], [Atom("self")])
+            t = self.temp()
+            st = [("let", t, App("Rs.last", [cur])),
+                  ("mut", "self", Atom("{ self with " + FIELD_UPDATE[(owner, fld)] + " := " + render(App("Rs.pop_back", [cur]), 0) + " }"))]
+            return Seq(st, Atom(t), False, False)
+        if (name, n) == ("swap_remove", 1):
+            # `v.swap_remove(i)` in expression position: the removed element; the changed vector is not modelled, so the
+            # variable must not be used again (checked: later references are rejected) and this must not be inside a loop
+            r = e.recv
+            if not (r.kind == "path" and len(r.segs) == 1 and self.is_local(r.segs[0])) or self.loop_depth:
+                self.fail("swap_remove on something that is not a local variable, or inside a loop")
+            self.need_res("swap_remove")
+            node = self.with_args([e.recv] + e.args, lambda a: App("Rs.swap_remove", [self.site("swap_remove out of bounds")] + a, eff=True))
+            self.dead_refs.add(r.segs[0])
+            return node
+        if (name, n) in CLASS_TRAIT_METHODS and not (prim and on_value):
+            return self.with_args([e.recv] + e.args, lambda a: App(CLASS_TRAIT_METHODS[(name, n)][0], a))
         if (name, n) in STD_METHODS:
             head, effect = STD_METHODS[(name, n)]
             if effect == "panic":
@@ -1871,7 +2137,11 @@ class FnTr:
             r = r.e
         if r.kind == "path" and r.segs == ["self"] and self.item.self_kind and (self.item.impl_type, e.name) in FIELD_MAP:
             return App(FIELD_MAP[(self.item.impl_type, e.name)], [Atom("self")])
-        self.fail("field access ." + e.name + " (only `self.<field>` of a struct in the field table)")
+        owners = [o for (o, f) in FIELD_MAP if f == e.name]
+        if len(set(FIELD_MAP[(o, e.name)] for o in owners)) == 1:
+            # a field name that belongs to one struct of the field table: the projection (Lean checks the receiver's type)
+            return self.with_args([e.e], lambda a: App(FIELD_MAP[(owners[0], e.name)], a))
+        self.fail("field access ." + e.name + " (not a field of the field table, or ambiguous)")
 
     def e_assign(self, e):
         self.fail("assignment in expression position")
@@ -1889,11 +2159,13 @@ class FnTr:
     def e_block(self, e):
         return self.block(e)
 
-    def e_if(self, e):
+    def e_if(self, e, over=None):
         stmts = []
         c = self.atomize(e.cond, stmts)
-        t = self.block(e.then)
-        if e.els is None:
+        t = self.block(e.then, over)
+        if over is not None:
+            el = self.with_tail(e.els, over)
+        elif e.els is None:
             el = Tup([])
         else:
             el = self.expr(e.els)
@@ -1902,41 +2174,58 @@ class FnTr:
             t, el = lift(t), lift(el)
         return mkseq(stmts, If(c, t, el, eff, t.ctx or el.ctx))
 
-    def e_iflet(self, e):
+    def e_iflet(self, e, over=None):
         arms = [N("arm", pat=e.pat, guard=None, body=e.then)]
         if not self.irrefutable(e.pat):
             arms.append(N("arm", pat=N("pwild"), guard=None, body=e.els if e.els is not None else N("tuple", items=[])))
-        return self.e_match(N("match", scrut=e.scrut, arms=arms))
+        return self.e_match(N("match", scrut=e.scrut, arms=arms), over)
 
     def get_mut_scrutinee(self, e):
         """`self.<field>.get_mut(key)` as the scrutinee of `if let Some(r) = …` / `match`: (field, key term) or None"""
         sc = e.scrut
         while sc.kind == "paren":
             sc = sc.e
-        if not (sc.kind == "mcall" and sc.name == "get_mut" and len(sc.args) == 1):
+        if not (sc.kind == "mcall" and ((sc.name == "get_mut" and len(sc.args) == 1) or (sc.name == "last_mut" and not sc.args))):
             return None
         fld = self.self_field(sc.recv)
         if not (self.g.mut_self and fld):
-            self.fail("`get_mut` on something that is not a map field of `&mut self`")
-        k = sc.args[0]
-        while k.kind in ("ref", "paren"):
-            k = k.e
-        if not (k.kind == "path" and len(k.segs) == 1 and self.is_local(k.segs[0])):
-            self.fail("`get_mut` with a key that is not a local variable")
+            self.fail(f"`{sc.name}` on something that is not a field of `&mut self`")
+        if sc.name == "get_mut":
+            k = sc.args[0]
+            while k.kind in ("ref", "paren"):
+                k = k.e
+            if not (k.kind == "path" and len(k.segs) == 1 and self.is_local(k.segs[0])):
+                self.fail("`get_mut` with a key that is not a local variable")
         for a in e.arms:
             p = a.pat
             ok = (p.kind == "ptuplestruct" and p.segs == ["Some"] and len(p.items) == 1 and self.irrefutable(p.items[0])
                   and p.items[0].kind in ("ppath", "pident")) or p.kind == "pwild" or (p.kind == "ppath" and p.segs == ["None"])
             if not ok or a.guard is not None:
                 self.fail("`get_mut` must be matched by `Some(r)` / `None` / `_` arms")
-        return fld, Atom(lname(k.segs[0]))
+        return (fld, Atom(lname(k.segs[0]))) if sc.name == "get_mut" else (fld, None)
 
-    def e_match(self, e):
+    def e_match(self, e, over=None):
         stmts = []
+        live = []
+        for a in e.arms:
+            if getattr(a, "cfg", None) is not None:
+                # an arm under `#[cfg(feature = …)]`: not part of the build that is modelled (default features)
+                if a.cfg not in ("regex", "rand"):
+                    self.fail("match arm under cfg(feature = \"" + a.cfg + "\")")
+                self.w.skipped_arms.append((self.item.where, a.cfg, render_pat_src(a.pat)))
+            else:
+                live.append(a)
+        if len(live) != len(e.arms):
+            e = N("match", scrut=e.scrut, arms=live)
+        if any(a.pat.kind == "plit" and a.pat.tok.kind == "str" for a in e.arms):
+            if over is not None:
+                self.fail("string match whose arms assign outer variables")
+            return self.string_match(e)
         gm = self.get_mut_scrutinee(e)
         if gm is not None:
             # the reference is read as the current value of the entry; writes through it are `insert`s (see self_stmt)
-            s = App("Rs.get", [App(FIELD_MAP[(self.item.impl_type, gm[0])], [Atom("self")]), gm[1]])
+            cur = App(FIELD_MAP[(self.item.impl_type, gm[0])], [Atom("self")])
+            s = App("Rs.get", [cur, gm[1]]) if gm[1] is not None else App("Rs.last", [cur])
         else:
             s = self.atomize(e.scrut, stmts)
         if not is_simple(s) and any(a.guard is not None for a in e.arms):
@@ -1953,11 +2242,40 @@ class FnTr:
                 for b in bound:
                     self.entry_refs[b] = gm
             guard = self.expr(a.guard) if a.guard is not None else None
-            body = self.expr(a.body)
+            body = self.expr(a.body) if over is None else self.with_tail(a.body, over)
             self.entry_refs = saved_refs
             self.pop()
             arms.append((pats, guard, body, self.irrefutable(a.pat)))
         return mkseq(stmts, self.build_match(s, arms))
+
+    def string_match(self, e):
+        """`match s { "lit" => e, …, _ => d }` on strings: a chain of `if s == "lit"` (string literals are not constructors)"""
+        stmts = []
+        s = self.atomize(e.scrut, stmts)
+        if not is_simple(s):
+            t = self.temp()
+            stmts.append(("let", t, s))
+            s = Atom(t)
+        arms = []
+        default = None
+        for k, a in enumerate(e.arms):
+            if a.guard is not None:
+                self.fail("guard in a string match")
+            if a.pat.kind == "pwild":
+                if k != len(e.arms) - 1:
+                    self.fail("`_` arm that is not the last arm of a string match")
+                default = self.expr(a.body)
+            elif a.pat.kind == "plit" and a.pat.tok.kind == "str":
+                arms.append((self.e_lit(N("lit", lk="str", text=a.pat.tok.text)), self.expr(a.body)))
+            else:
+                self.fail("pattern in a string match")
+        if default is None:
+            self.fail("string match without a `_` arm")
+        eff = default.eff or any(b.eff for _, b in arms)
+        node = lift(default) if eff else default
+        for lit, body in reversed(arms):
+            node = If(App("Rs.eq", [s, lit]), lift(body) if eff else body, node, eff, False)
+        return mkseq(stmts, node)
 
     def build_match(self, s, arms):
         gi = next((i for i, a in enumerate(arms) if a[1] is not None), None)
@@ -1990,8 +2308,30 @@ class FnTr:
         return mkseq([("let", k, Lam(["(_ : Unit)"], up(rest)))], Match([s], marms, eff, ctx))
 
     # ---- blocks and statements
-    def block(self, b):
-        self.push()
+    def state_text(self, muts):
+        if not muts:
+            return "()"
+        return lname(muts[0]) if len(muts) == 1 else "(" + ", ".join(lname(m) for m in muts) + ")"
+
+    def with_tail(self, e, over):
+        """translate a branch of a statement that assigns the outer locals `over`: every path ends with their tuple"""
+        if e is None:
+            return PureM(Atom(self.state_text(over)))
+        if e.kind == "block":
+            return self.block(e, over)
+        if e.kind == "if":
+            return self.e_if(e, over)
+        if e.kind == "iflet":
+            return self.e_iflet(e, over)
+        if e.kind == "match":
+            return self.e_match(e, over)
+        self.push(over)
+        n = self.expr(e)
+        self.pop()
+        return mkseq(bind_stmts("_", n), PureM(Atom(self.state_text(over))))
+
+    def block(self, b, over=None):
+        self.push(over or ())
         last = b.tail if b.tail is not None else (b.stmts[-1].e if b.stmts and b.stmts[-1].kind == "exprstmt" else None)
         self.div.append(last is not None and last.kind == "return")
         saved_refs, saved_dead = dict(self.entry_refs), set(self.dead_refs)
@@ -2004,7 +2344,12 @@ class FnTr:
             # a `()`-valued mutation in tail position: a statement, then `()`
             self.stmt(N("exprstmt", e=tail), stmts)
             tail = None
-        final = self.expr(tail) if tail is not None else Tup([])
+        if over is not None:
+            if tail is not None:
+                self.stmt(N("exprstmt", e=tail), stmts)
+            final = PureM(Atom(self.state_text(over)))
+        else:
+            final = self.expr(tail) if tail is not None else Tup([])
         self.globs = saved_globs
         if self.div.pop():
             # control does not leave a block that ends with `return`: what it did to the references is not visible after it
@@ -2042,6 +2387,8 @@ class FnTr:
             ptxt = self.pat(st.pat, bound)
             if self.g.is_ctx and self.g.ctx_param in bound:
                 self.ctx_shadowed = True
+            if st.ty is not None and init.eff and not isinstance(init, (PureM, Seq)):
+                ptxt = ptxt + " : " + self.ltype(st.ty, False)     # the Rust ascription helps the elaboration of `let x ← match …`
             stmts.extend(bind_stmts(ptxt, init))
             for b in bound:
                 self.declare(b)
@@ -2066,6 +2413,21 @@ class FnTr:
         if e.kind == "for":
             self.for_stmt(e, stmts)
             return
+        if e.kind == "loop":
+            stmts.append(("bind", "_ : Unit", self.loop_node(e)))
+            return
+        if e.kind in ("if", "iflet", "match"):
+            muts = []
+            self.assigned_locals(e, muts)
+            if muts:
+                # a branching statement that assigns locals of the enclosing block: the branches return their new values
+                for m in muts:
+                    if m not in self.frames[-1] and m != "self":
+                        self.fail(f"a branch assigns `{m}`, which is not a variable of the enclosing block")
+                muts.sort(key=lambda m: self.order_of[m])
+                n = self.with_tail(e, muts)
+                stmts.append(("bind" if n.eff else "let", self.state_text(muts), n))
+                return
         n = self.expr(e)
         diverges = e.kind == "return" or (e.kind == "macro" and e.name == "unreachable")
         stmts.extend(bind_stmts("_ : Unit" if diverges else "_", n))
@@ -2078,12 +2440,22 @@ class FnTr:
             return e.name
         return None
 
+    def check_self_mut(self):
+        # directly in the body block, in a block that ends with `return` (which carries the current `self`), or in a branch /
+        # loop body whose state tuple contains `self`
+        if len(self.frames) != 2 and not (self.div and self.div[-1]) and "self" not in self.frames[-1]:
+            self.fail("`self` is changed from a nested block / branch that can fall through (the rebinding would not escape)")
+
+    def set_entry(self, fld, key, val):
+        """`self` with the entry (`key`: of a map; None: the last element of a Vec) of field `fld` replaced by `val`"""
+        owner = self.item.impl_type
+        cur = App(FIELD_MAP[(owner, fld)], [Atom("self")])
+        new = App("Rs.insert", [cur, key, val]) if key is not None else App("Rs.set_last", [cur, val])
+        return Atom("{ self with " + FIELD_UPDATE[(owner, fld)] + " := " + render(new, 0) + " }")
+
     def self_stmt(self, e, stmts):
         """statements that change `*self` in a `&mut self` method; only directly in the body block"""
-        def check_level():
-            # directly in the body block, or in a block that ends with `return` (which carries the current `self`)
-            if len(self.frames) != 2 and not (self.div and self.div[-1]):
-                self.fail("`self` is changed from a nested block / branch that can fall through (the rebinding would not escape)")
+        check_level = self.check_self_mut
         owner = self.item.impl_type
         if (e.kind == "assign" and e.op == "=" and e.lhs.kind == "unary" and e.lhs.op == "*" and e.lhs.e.kind == "path"
                 and len(e.lhs.e.segs) == 1 and e.lhs.e.segs[0] in self.entry_refs):
@@ -2093,9 +2465,7 @@ class FnTr:
             r = e.lhs.e.segs[0]
             fld, key = self.entry_refs.pop(r)
             self.dead_refs.add(r)
-            f = FIELD_UPDATE[(owner, fld)]
-            cur = App(FIELD_MAP[(owner, fld)], [Atom("self")])
-            n = self.with_args([e.rhs], lambda a: Atom("{ self with " + f + " := " + render(App("Rs.insert", [cur, key] + a), 0) + " }"))
+            n = self.with_args([e.rhs], lambda a: self.set_entry(fld, key, a[0]))
             stmts.extend(bind_stmts("self", n))
             return True
         if e.kind == "assign" and e.op == "=" and self.self_field(e.lhs):
@@ -2130,6 +2500,15 @@ class FnTr:
     def assigned_locals(self, node, acc):
         """names of local variables (of the enclosing scopes) that the AST `node` mutates"""
         if isinstance(node, N):
+            if self.g.mut_self and "self" not in acc:
+                hits_self = (
+                    (node.kind == "mcall" and self.self_field(node.recv) and ((node.name, len(node.args)) in STD_MUTATORS or (node.name, len(node.args)) == ("pop", 0)))
+                    or (node.kind == "assign" and (self.self_field(node.lhs) or (node.lhs.kind == "unary" and node.lhs.op == "*")))
+                    or (node.kind == "mcall" and (node.name, len(node.args)) == ("next", 0) and node.recv.kind == "path" and len(node.recv.segs) == 1)
+                    or (node.kind == "mcall" and node.recv.kind == "path" and node.recv.segs == ["self"] and
+                        any(it.name == node.name and it.self_kind == "&mut" and it.impl_type == self.item.impl_type for it in self.w.items)))
+                if hits_self:
+                    acc.append("self")
             if node.kind == "mcall" and (node.name, len(node.args)) in STD_MUTATORS and node.recv.kind == "path" and len(node.recv.segs) == 1:
                 if self.is_local(node.recv.segs[0]) and node.recv.segs[0] not in acc:
                     acc.append(node.recv.segs[0])
@@ -2144,14 +2523,37 @@ class FnTr:
             for v in node:
                 self.assigned_locals(v, acc)
 
+    def e_loop(self, e):
+        return self.loop_node(e)
+
+    def loop_node(self, e):
+        """`loop { BODY }` (left only by `return`): iterate BODY on the tuple of the variables it assigns, at most `fuel` times"""
+        if not getattr(self.g, "has_loop", False) or self.in_closure:
+            self.fail("`loop` outside a fuel-indexed function body")
+        muts = []
+        self.assigned_locals(e.body, muts)
+        for m in muts:
+            if m not in self.frames[-1] and m != "self":
+                self.fail(f"the loop assigns `{m}`, which is not a variable of the enclosing block")
+        muts.sort(key=lambda m: self.order_of[m])
+        state = self.state_text(muts)
+        self.loop_depth += 1
+        body = self.block(e.body, muts)
+        self.loop_depth -= 1
+        if body.ctx:
+            self.fail("context access in a `loop`")
+        return App("Rs.loop", [Atom(self.site("loop: out of fuel").text), Atom("fuel"), Atom(state), Lam([state if muts else "_"], lift(body))], eff=True)
+
     def for_stmt(self, e, stmts):
         """`for PAT in ITER { BODY }`: a fold over the list; the loop state is the tuple of the locals BODY assigns"""
         it = self.atomize(e.iter, stmts)
         muts = []
         self.assigned_locals(e.body, muts)
         for m in muts:
-            if m not in self.frames[-1]:
+            if m not in self.frames[-1] and m != "self":
                 self.fail(f"the loop assigns `{m}`, which is not a variable of the enclosing block")
+        muts.sort(key=lambda m: self.order_of[m])
+        self.loop_depth += 1
         bound = []
         if not self.irrefutable(e.pat):
             self.fail("refutable `for` pattern")
@@ -2168,7 +2570,7 @@ class FnTr:
         for st in e.body.stmts:
             self.stmt(st, body_stmts)
         if e.body.tail is not None:
-            body_stmts.extend(bind_stmts("_", self.expr(e.body.tail)))
+            self.stmt(N("exprstmt", e=e.body.tail), body_stmts)
         self.globs = saved_globs
         self.pop()
         body = mkseq(body_stmts, PureM(Atom(state)))
@@ -2176,6 +2578,7 @@ class FnTr:
             self.nloops += 1
             ptxt = "⟨" + ptxt + ", h_loop" + str(self.nloops) + "⟩"
             it = App("List.attach", [it])
+        self.loop_depth -= 1
         spat = state if muts else "_"
         loop = App("Rs.forIn", [it, Atom(state), Lam([ptxt, spat], body)], eff=True, ctx=body.ctx)
         stmts.append(("bind", spat, loop))
@@ -2186,7 +2589,7 @@ class FnTr:
         self.ctx_shadowed = False
         p = Parser(it.body_toks, it.where)
         body = p.block()
-        names = [n for n, _ in g.params if n != "_"]
+        names = [n for n, _ in g.params if n not in ("_", "fuel")]
         if g.is_ctx:
             names.append(g.ctx_param)
         self.push(names)            # frame 0: parameters
@@ -2215,7 +2618,11 @@ class FnTr:
         if g.mut_self:
             # the value of the body and the final `self` (the rebindings of `self` are statements of the body block)
             st, fin = (node.stmts, node.final) if isinstance(node, Seq) else ([], node)
-            node = mkseq(st + bind_stmts(TEMP + "r", fin), Tup([Atom(TEMP + "r"), Atom("self")]))
+            res = Tup([Atom(TEMP + "r"), Atom("self")])
+            node = mkseq(st + bind_stmts(TEMP + "r", fin), App("Except.ok", [res]) if g.has_loop else res)
+        elif g.has_loop:
+            st, fin = (node.stmts, node.final) if isinstance(node, Seq) else ([], node)
+            node = mkseq(st + bind_stmts(TEMP + "r", fin), App("Except.ok", [Atom(TEMP + "r")]))
         if g.is_ctx:
             head = f"def {g.lean_name}{params} : St → {g.ret} × St :=\n  Rs.M.run "
             text = doc + head + render(lift(node), 2, True)
@@ -2229,8 +2636,14 @@ class FnTr:
         if it.impl_trait == "From" and getattr(it, "from_instance", True):
             src_t = self.ltype(it.trait_args[0], True)
             g.instance = f"instance : Rs.Into {src_t} {TYPE_MAP[it.impl_type]} := ⟨{g.lean_name}⟩\n"
+        if it.impl_type == "f64" and it.impl_trait == "EvalexprFloat" and (it.name, len(it.params)) in CLASS_TRAIT_METHODS:
+            g.instance = f"instance : {CLASS_TRAIT_METHODS[(it.name, len(it.params))][1]} Float := ⟨{g.lean_name}⟩\n"
         if it.impl_trait == "Default":
             g.instance = f"instance : Rs.Default {TYPE_MAP[it.impl_type]} := ⟨{g.lean_name}⟩\n"
+
+
+def render_pat_src(p):
+    return p.tok.text if p.kind == "plit" else p.kind
 
 
 def is_flat(n):
@@ -2275,6 +2688,11 @@ ROOTS = [
     ("context/mod.rs", "HashMapContext", "new"), ("context/mod.rs", "HashMapContext", "set_value"),
     ("context/mod.rs", "ContextWithMutableVariables", "set_value"), ("context/mod.rs", "ContextWithMutableFunctions", "set_function"),
     ("error/mod.rs", "EvalexprError", "expected_type"),
+    ("tree/iter.rs", "NodeIter", "next"), ("tree/iter.rs", "OperatorIterMut", "next"),
+    ("tree/iter.rs", "NodeIter", "new"), ("tree/iter.rs", "OperatorIterMut", "new"),
+    ("function/builtin.rs", None, "builtin_function"),
+    ("value/numeric_types/default_numeric_types.rs", "i64", "bit_shift_left"),
+    ("value/numeric_types/default_numeric_types.rs", "i64", "bit_shift_right"),
 ] + [("value/numeric_types/default_numeric_types.rs", "i64", n) for n in ['checked_add', 'checked_sub', 'checked_neg', 'checked_mul', 'checked_div', 'checked_rem', 'abs', 'bitand', 'bitor', 'bitxor', 'bitnot', 'from_usize', 'into_usize']] + [
     ("value/numeric_types/default_numeric_types.rs", "f64", n) for n in ['pow', 'ln', 'log', 'log2', 'log10', 'exp', 'exp2', 'cos', 'cosh', 'acos', 'acosh', 'sin', 'sinh', 'asin', 'asinh', 'tan', 'tanh', 'atan', 'atanh', 'atan2', 'sqrt', 'cbrt', 'hypot', 'floor', 'round', 'ceil', 'is_nan', 'is_finite', 'is_infinite', 'is_normal', 'abs', 'min', 'max']] + [
     ("value/numeric_types/default_numeric_types.rs", "DefaultNumericTypes", n) for n in ("int_as_float", "float_as_int")] + [("context/mod.rs", owner, n) for owner in ("EmptyContext", "EmptyContextWithBuiltinFunctions", "HashMapContext")
@@ -2286,8 +2704,9 @@ ROOTS = [
     # the error constructor functions the agreement proofs name (kept as roots so that a body which stops calling one still checks)
     "wrong_operator_argument_amount", "wrong_type_combination", "expected_string", "expected_int", "expected_float",
     "expected_number", "expected_number_or_string", "expected_boolean", "expected_tuple", "expected_fixed_len_tuple",
-    "expected_empty", "addition_error", "subtraction_error", "negation_error", "multiplication_error", "division_error",
-    "modulation_error")] + [("value/mod.rs", "Value", "from_int"), ("value/mod.rs", "Value", "from_float")]
+    "expected_empty", "type_error", "wrong_function_argument_amount_range", "expected_ranged_len_tuple", "addition_error", "subtraction_error", "negation_error", "multiplication_error", "division_error",
+    "modulation_error")] + [("value/mod.rs", "Value", "from_int"), ("value/mod.rs", "Value", "from_float"),
+                         ("value/mod.rs", "Value", "str_from"), ("value/mod.rs", "Value", "as_ranged_len_tuple")]
 # `impl From<A> for B` blocks that give `.into()` its meaning: (file, A, B); translated BEFORE the roots
 # `impl Default for T` blocks that give `Default::default()` its meaning at T: (file, T); translated before the roots
 DEFAULT_IMPLS = [("context/mod.rs", "HashMapContext")]
@@ -2296,10 +2715,15 @@ DEFAULT_IMPLS = [("context/mod.rs", "HashMapContext")]
 # instance, the other two are translated as plain functions (and proved equal to the same Model function).
 FROM_IMPLS = [
     ("value/mod.rs", "String", "Value", True),
+    ("value/mod.rs", "&str", "Value", False),
+    ("value/mod.rs", "bool", "Value", True),
     ("value/value_type.rs", "&Value", "ValueType", True),
     ("value/value_type.rs", "&mut Value", "ValueType", False),
     ("value/value_type.rs", "&&mut Value", "ValueType", False),
 ]
+
+
+SKIPPED_ARMS = []
 
 
 def header(module, imports):
@@ -2312,7 +2736,7 @@ def header(module, imports):
         lines.append(f"       context.{name}/{n}  ↦ {lean} = {doc}")
     lines.append("   * trait / foreign methods, by (name, arity):")
     for (name, n), lean in BOUNDARY_METHODS.items():
-        lines.append(f"       .{name}/{n}  ↦ {lean}" + ("   (Function::call: Builtin.call for a builtin, application for a user function)" if name == "call" else ""))
+        lines.append(f"       .{name}/{n}  ↦ {lean}" + ("   (Function::call = `(self.function)(argument)`: application of the stored function)" if name == "call" else ""))
     lines.append("   * inherent std methods of i64 / f64 (called on `(*self)` inside `impl EvalexprInt for i64` / `impl EvalexprFloat for f64`):")
     row = []
     for (prim, name, n), lean in PRIM_METHODS.items():
@@ -2329,6 +2753,19 @@ def header(module, imports):
     lines.append("   * operators on primitive types:")
     for nline in BOUNDARY_NOTES:
         lines.append("       " + nline)
+    lines.append("   * std / Display methods used by the builtins, each mapped to the Model definition that stands for it:")
+    lines.append("       str::to_lowercase ↦ strToLower;  str::to_uppercase ↦ strToUpper;  str::trim ↦ trimStr;  String::len ↦ utf8Len;")
+    lines.append("       str::get(a..b) ↦ sliceBytes;  [Value]::contains ↦ tupleContains;  RangeInclusive::contains ↦ lo ≤ x ∧ x ≤ hi;")
+    lines.append("       to_string (Display) on String / f64 / i64 / bool / Value ↦ id / F64.display / F64.intDisplay / \"true\"|\"false\" / Value.display;")
+    lines.append("       Ord::min / Ord::max on i64 ↦ comparison of Int64.toInt;  i64::wrapping_shl/shr(n) ↦ BitVec shift by n mod 64;  usize::MAX ↦ 2^64-1;")
+    lines.append("       Function::new(closure) ↦ the closure;  Vec::swap_remove(i) (value only, the vector is not used afterwards) ↦ element i")
+    lines.append("   * `macro_rules!` invocations (simple_math!, int_function!) are expanded by the translator (literal tokens and `$x:ident` only);")
+    lines.append("     `match` on string literals ↦ chain of `if s == \"lit\"`; match arms under #[cfg(feature = \"regex\" | \"rand\")] are NOT")
+    lines.append("     modelled and skipped" + (": " + ", ".join(sorted({a[2] for a in SKIPPED_ARMS})) if SKIPPED_ARMS else ""))
+    lines.append("   * `loop { … }` (left by `return` only) ↦ Rs.loop: the generated function takes `fuel : Nat` and returns `Res`; out of fuel ↦")
+    lines.append("     .error (.panic \"… out of fuel\") (no termination assumption: the agreement theorems prove how much fuel suffices);")
+    lines.append("     NodeIter / OperatorIterMut { stack: Vec<slice::Iter<Node>> } ↦ Rs.IterStack (Vec, top = last, of the remaining children);")
+    lines.append("     slice iterator `next` through `stack.last_mut()` ↦ Rs.iter_next + write-back (Rs.set_last); Vec::pop ↦ Rs.last / Rs.pop_back")
     lines.append("   * state: a context built in place (`&mut HashMapContext::new()`) passed as the context argument ↦ Rs.call_fresh: the callee runs")
     lines.append("     on the state { ctx := .hashMap h, log := [] }, result only (Model: St.fresh / Mode.fresh);")
     lines.append("     HashMap<String, T> ↦ association list (get ↦ alookup, insert ↦ ainsert, clear ↦ []; `*r = v` through the `r` of")
@@ -2374,6 +2811,7 @@ def run():
         if len(c) != 1:
             raise Untranslatable(f"{len(c)} items named {name}", f"{file}::{(owner + '::') if owner else ''}{name}")
         w.require(c[0])
+    SKIPPED_ARMS[:] = w.skipped_arms
     # group by module, check the module dependency order
     by_mod = {m: [] for m in MODULE_ORDER}
     for g in w.order:
@@ -2392,7 +2830,7 @@ def run():
         if not by_mod[m]:
             continue
         need = {d.module for g in by_mod[m] for d in g.deps if d.module != m}
-        if any("Rs.into" in g.text or "Rs.default" in g.text for g in by_mod[m]):
+        if any(any(k in g.text for k in ("Rs.into", "Rs.default", "Rs.min", "Rs.max")) for g in by_mod[m]):
             need |= {g.module for g in w.order if g.instance and g.module != m and MODULE_ORDER.index(g.module) < MODULE_ORDER.index(m)}
         imports = "import EvalexprVerif.Translate.Prelude\n" + "".join(f"import EvalexprVerif.Generated.{x}\n" for x in prev if x in need)
         body = []
